@@ -30,6 +30,8 @@ template <
 >
 class HeterCallbackListBase
 {
+	EVENTPP_VERIF_FRIEND
+
 protected:
 	struct HeterHandle_
 	{
